@@ -4,7 +4,7 @@ package http3
 //vx:entry Harness_C19_parse
 //vx:param all maxdepth=3000
 //vx:param quick fields=2 freelen=1 values=6
-//vx:param thorough fields=2 freelen=2 values=8
+//vx:param thorough fields=2 freelen=1 values=9
 //vx:reach Harness_C19_parse C19.accepted C19.rejected C19.accepted-pseudo C19.accepted-content-length C19.free-name C19.free-value
 
 import (
